@@ -73,21 +73,21 @@ Definition interpreter (f : bytes) (e : elf) : ires :=
   | Some (is64, big) => scan f is64 big (e_phoff e) (e_phentsize e) (range_N (e_phnum e))
   end.
 
-(* ---- an ELF encoder: identification, header, a program-header table at e_phoff with stride e_phentsize, payload bytes ---- *)
-Fixpoint write_at (f : bytes) (pos : nat) (data : bytes) : bytes :=        (* overwrite, extending with zeros *)
-  match pos with
-  | O => data ++ skipn (length data) f
-  | S p => match f with [] => 0 :: write_at [] p data | b :: t => b :: write_at t p data end
-  end.
-Record elf_spec := { s_is64 : bool; s_big : bool; s_pad : bytes;           (* 10 bytes after EI_DATA *)
-                     s_hdr : list N;                                       (* the 10 header fields *)
-                     s_phdrs : list (list N);                              (* 8 fields each *)
-                     s_blobs : list (nat * bytes) }.                       (* (offset, bytes) written last *)
-Definition ident_of (s : elf_spec) : bytes :=
-  magic ++ [if s_is64 s then 2 else 1; if s_big s then 2 else 1] ++ firstn 10 (s_pad s ++ repeat 0 10).
-Fixpoint write_phdrs (f : bytes) (big : bool) (sizes : list nat) (pos stride : nat) (phs : list (list N)) : bytes :=
-  match phs with [] => f | ph :: more => write_phdrs (write_at f pos (pack big sizes ph)) big sizes (pos + stride) stride more end.
+(* ---- an ELF encoder (canonical contiguous layout): identification, header, program-header table right after the header
+   with stride = entry size, then payload bytes.  e_phoff / e_phentsize / e_phnum are filled in by the encoder. ---- *)
+Record elf_spec := { s_is64 : bool; s_big : bool; s_pad : bytes;           (* EI_VERSION .. EI_PAD: the 10 bytes after EI_DATA *)
+                     s_type : N; s_machine : N; s_version : N; s_entry : N; s_shoff : N; s_flags : N; s_ehsize : N;
+                     s_phdrs : list (list N);                              (* 8 fields each, in the layout's field order *)
+                     s_payload : bytes }.
+Definition cap_of (is64 : bool) : N := if is64 then 2 else 1.
+Definition enc_of (big : bool) : N := if big then 2 else 1.
+Definition ident_of (s : elf_spec) : bytes := magic ++ [cap_of (s_is64 s); enc_of (s_big s)] ++ firstn 10 (s_pad s ++ repeat 0 10%nat).
+Definition hdr_of (s : elf_spec) : list N :=
+  [s_type s; s_machine s; s_version s; s_entry s; 16 + total (e_sizes (s_is64 s)); s_shoff s; s_flags s; s_ehsize s;
+   total (p_sizes (s_is64 s)); N.of_nat (length (s_phdrs s))].
+Definition table_of (s : elf_spec) : bytes := flat_map (pack (s_big s) (p_sizes (s_is64 s))) (s_phdrs s).
 Definition encode (s : elf_spec) : bytes :=
-  let base := ident_of s ++ pack (s_big s) (e_sizes (s_is64 s)) (s_hdr s) in
-  let f1 := write_phdrs base (s_big s) (p_sizes (s_is64 s)) (N.to_nat (nth 4 (s_hdr s) 0)) (N.to_nat (nth 8 (s_hdr s) 0)) (s_phdrs s) in
-  fold_left (fun f ob => write_at f (fst ob) (snd ob)) (s_blobs s) f1.
+  ident_of s ++ pack (s_big s) (e_sizes (s_is64 s)) (hdr_of s) ++ table_of s ++ s_payload s.
+(* where the payload starts *)
+Definition payload_off (s : elf_spec) : N :=
+  16 + total (e_sizes (s_is64 s)) + total (p_sizes (s_is64 s)) * N.of_nat (length (s_phdrs s)).
